@@ -654,6 +654,9 @@ def run(chk):
     chk.assume("row-wise parametricity of the sex-shift functions (enforced by the interpreter)", "input levels of D1 are the property's premise: female X 0, male X -1, Y -1 relative to autosomes")
     d1(chk, prog)
     d2(chk, prog)
+    chk.clause("LABELS", "the names under which the reference's X / Y bins are found: the table's own naming style, whichever sex chromosomes it has (C15 rule)")
+    from . import C15
+    C15.sex_labels(chk, prog)
     d3(chk, prog)
     d4(chk, prog)
     d5(chk, prog)
